@@ -4,6 +4,7 @@ import ast
 
 from .. import astq, spec
 from .. import sym as S
+from ..report import MISSING
 from ..model import AnalysisError
 from ..symeval import SymEval
 from . import cli_common as cc
@@ -82,14 +83,14 @@ def mirror(ctx, R="R-C02-mirror"):
     f = m["func"]
     w = m["while"]
     R2 = "R-C02-walk"
-    ctx.check(astq.text(w.test).replace(" ", "") in ("consumed<trunc_len", "trunc_len>consumed", "consumed<len(truncated_filt)"), R2, f, w,
+    ctx.check(astq.in_texts(w.test, ("consumed<trunc_len", "trunc_len>consumed", "consumed<len(truncated_filt)",)), R2, f, w,
               "the walk continues until the truncated filter is consumed", "walk condition is %s" % astq.text(w.test))
     alt = [s for s in w.body if isinstance(s, ast.Assign) and astq.is_name(s.targets[0], "conjugate")]
-    ctx.check(len(alt) == 1 and astq.text(alt[0].value) == "not conjugate", R2, f, alt[0] if alt else w,
+    ctx.check(len(alt) == 1 and astq.text(alt[0].value) == "not conjugate", R2, f, alt[0] if alt else MISSING(w),
               "direct and mirrored segments alternate", "alternation is %s" % (astq.text(alt[0].value) if alt else None))
     clamp = [s for s in w.body if isinstance(s, ast.Assign) and astq.is_name(s.targets[0], "start_idx")]
-    ctx.check(len(clamp) == 1 and astq.text(clamp[0].value).replace(" ", "") in ("max(0,start_idx)", "max(start_idx,0)"), R2, f,
-              clamp[0] if clamp else w, "the next start bin is clamped at 0", "start-bin clamp is %s" % (astq.text(clamp[0].value) if clamp else None))
+    ctx.check(len(clamp) == 1 and astq.in_texts(clamp[0].value, ("max(0,start_idx)", "max(start_idx,0)",)), R2, f,
+              clamp[0] if clamp else MISSING(w), "the next start bin is clamped at 0", "start-bin clamp is %s" % (astq.text(clamp[0].value) if clamp else None))
     # initial state of the walk, per filter
     pm = astq.parents(f)
     loop = [a for a in astq.ancestors(pm, w) if isinstance(a, ast.For)]
@@ -99,10 +100,10 @@ def mirror(ctx, R="R-C02-mirror"):
         inits.get("start_idx") == "self._filt_start_idxs[filt_idx]" and inits.get("truncated_filt") == "self._truncated_filts[filt_idx]"
     ctx.check(ok, R2, f, loop[0], "each filter starts a fresh walk at its own start bin with its own truncated response",
               "per-filter initialisation is %s" % inits)
-    ctx.check(astq.text(loop[0].iter).replace(" ", "") in ("range(len(self._filt_start_idxs))", "range(len(self._truncated_filts))", "range(self._bank.num_filts)"),
+    ctx.check(astq.in_texts(loop[0].iter, ("range(len(self._filt_start_idxs))", "range(len(self._truncated_filts))", "range(self._bank.num_filts)",)),
               R2, f, loop[0], "every filter of the bank is visited in order", "filter loop iterates %s" % astq.text(loop[0].iter))
     st = [s for s in loop[0].body if isinstance(s, ast.Assign) and astq.text(s.targets[0]) == "coeffs[filt_idx]"]
-    ctx.check(len(st) == 1 and astq.text(st[0].value) == "val", R2, f, st[0] if st else loop[0], "coefficient i is stored at index i",
+    ctx.check(len(st) == 1 and astq.text(st[0].value) == "val", R2, f, st[0] if st else MISSING(loop[0]), "coefficient i is stored at index i",
               "coefficient store is %s" % (astq.text(st[0]) if st else None))
 
 
@@ -149,12 +150,12 @@ def frame_routine(ctx):
         ctx.check(prov.get(attr) in (want, "bool(%s)" % want), R2, init, init.node, "self.%s is %s" % (attr, want), "self.%s is assigned %s" % (attr, prov.get(attr)))
     ops = [n for n in init.body_nodes() if isinstance(n, ast.If) and astq.text(n.test) in ("self._power", "use_power")]
     ok = len(ops) == 1 and astq.text(ops[0].body[0]) == "self._nonlin_op = _power" and astq.text(ops[0].orelse[0]) == "self._nonlin_op = _mag"
-    ctx.check(ok, R2, init, ops[0] if ops else init.node, "use_power selects the squared-modulus sum, otherwise the modulus sum",
+    ctx.check(ok, R2, init, ops[0] if ops else MISSING(init.node), "use_power selects the squared-modulus sum, otherwise the modulus sum",
               "non-linearity selection is not `_power if use_power else _mag`")
     pw, mg = prog.func("compute._power"), prog.func("compute._mag")
-    ctx.check(astq.text(astq.returns_of(pw)[0].value).replace(" ", "") in ("np.linalg.norm(x,ord=2)**2", "np.sum(np.abs(x)**2)"), R2, pw, pw.node,
+    ctx.check(astq.in_texts(astq.returns_of(pw)[0].value, ("np.linalg.norm(x,ord=2)**2", "np.sum(np.abs(x)**2)",)), R2, pw, pw.node,
               "_power is the sum of squared moduli", "_power is %s" % astq.text(astq.returns_of(pw)[0].value))
-    ctx.check(astq.text(astq.returns_of(mg)[0].value).replace(" ", "") in ("np.sum(np.abs(x))", "np.abs(x).sum()"), R2, mg, mg.node,
+    ctx.check(astq.in_texts(astq.returns_of(mg)[0].value, ("np.sum(np.abs(x))", "np.abs(x).sum()",)), R2, mg, mg.node,
               "_mag is the sum of moduli", "_mag is %s" % astq.text(astq.returns_of(mg)[0].value))
     # energy
     R3 = "R-C02-energy"
@@ -215,11 +216,11 @@ def default_length(ctx, R="R-C02-default-length"):
     # the truncated responses are taken at the DFT size, for every filter
     calls = [c for c in astq.func_calls(init) if astq.attr_call(c, "get_truncated_response")]
     ok = len(calls) == 1 and [astq.text(a) for a in calls[0].args] == ["filt_idx", "self._dft_size"]
-    ctx.check(ok, R, init, calls[0] if calls else init.node, "truncated responses are requested at the DFT size",
+    ctx.check(ok, R, init, calls[0] if calls else MISSING(init.node), "truncated responses are requested at the DFT size",
               "get_truncated_response is called with %s" % ([astq.text(a) for a in calls[0].args] if calls else None))
     w = [c for c in astq.func_calls(init) if astq.attr_call(c, "get_impulse_response")]
     ok = len(w) == 1 and astq.text(w[0].args[0]) == "self._frame_length"
-    ctx.check(ok, R, init, w[0] if w else init.node, "the window has frame_length samples", "window width is %s" % (astq.text(w[0].args[0]) if w else None))
+    ctx.check(ok, R, init, w[0] if w else MISSING(init.node), "the window has frame_length samples", "window width is %s" % (astq.text(w[0].args[0]) if w else None))
 
 
 def logfloor(ctx, R="R-C02-logfloor"):
